@@ -2,6 +2,7 @@
 looks at it, so that the rules see one spelling whichever the source uses.
 
   range(0, n)                      ->  range(n)
+  np.transpose(x), x.transpose()   ->  x.T
   <constant> == x  /  != x         ->  x == <constant>  /  x != <constant>
   b == a  (no constant, no call)   ->  a == b   with the textually smaller side first
   if not c: A else: B              ->  if c: B else: A            (plain if/else; elif chains are left alone)
@@ -70,6 +71,10 @@ def _is_module_like(f) -> bool:
 class _Exprs(ast.NodeTransformer):
     def visit_Call(self, node):
         self.generic_visit(node)
+        # np.transpose(x) / x.transpose() without axes  ->  x.T
+        if not node.keywords and ((ast.unparse(node.func) in ("np.transpose", "numpy.transpose") and len(node.args) == 1) or (isinstance(node.func, ast.Attribute) and node.func.attr == "transpose" and not node.args and not (isinstance(node.func.value, ast.Name) and node.func.value.id in ("np", "numpy")))):
+            inner = node.args[0] if node.args else node.func.value
+            return ast.copy_location(ast.Attribute(value=inner, attr="T", ctx=ast.Load()), node)
         if isinstance(node.func, ast.Name) and node.func.id == "range" and len(node.args) == 2 and not node.keywords and isinstance(node.args[0], ast.Constant) and node.args[0].value == 0 and type(node.args[0].value) is int:
             node.args = [node.args[1]]
         return node
